@@ -338,19 +338,25 @@ def corpus_projects() -> T.List[str]:
     return out
 
 
-def _corpus_shard(shard: T.List[str], ev: Evidence, fails: T.List[Failure]) -> None:
+CORPUS_VARIANTS: T.List[T.List[str]] = [[], ['--layout=flat'], ['-Ddefault_library=both', '-Dunity=on', '-Dunity_size=2']]
+
+
+def _corpus_shard(shard: T.List[T.Any], ev: Evidence, fails: T.List[Failure]) -> None:
     work = make_scratch('c04-corpus')
     sigs = set()
     try:
         for d in shard:
+            extra: T.List[str] = []
+            if isinstance(d, (tuple, list)):
+                d, extra = d[0], list(d[1])
             src = os.path.join(work, 'src')
             bld = os.path.join(work, 'bld')
             shutil.rmtree(src, ignore_errors=True)
             shutil.rmtree(bld, ignore_errors=True)
             shutil.copytree(d, src, symlinks=True)
             case = {'corpus': os.path.relpath(d, REPO)}
-            extra = []
-            tj = os.path.join(d, 'test.json')
+            if extra:
+                case['args'] = extra
             try:
                 r = run_sub(['setup'] + extra + [bld, src], timeout=180)
             except Exception:
@@ -361,11 +367,28 @@ def _corpus_shard(shard: T.List[str], ev: Evidence, fails: T.List[Failure]) -> N
                 continue
             m, f = judge_manifest(bld, case)
             ev.case(case, nontrivial=m is not None and len(m.edges) > 30, cls='corpus', sample=case)
+            if f is not None and extra:
+                # under a non-default option set the failing input is (project, option set): several recorded findings of
+                # the layout=flat family are told apart this way
+                tag = 'flat' if '--layout=flat' in extra else 'both-unity'
+                f.sig = f'{f.sig}@corpus/{os.path.basename(d)}:{tag}'
             if f is not None and f.sig not in sigs:
                 sigs.add(f.sig)
                 fails.append(f)
     finally:
         shutil.rmtree(work, ignore_errors=True)
+
+
+# (project, option set) pairs every run takes: the recorded layout=flat findings seen on corpus projects, and the
+# unity + extract_all_objects + assembly case that was repaired
+CORPUS_FIXED: T.List[T.Tuple[str, T.List[str]]] = [
+    ('test cases/common/259 preprocess', ['--layout=flat']),
+    ('test cases/common/277 generator custom_tgt subdir', ['--layout=flat']),
+    ('test cases/common/49 custom target', ['--layout=flat']),
+    ('test cases/common/105 generatorcustom', ['--layout=flat']),
+    ('test cases/common/127 generated assembly', ['-Ddefault_library=both', '-Dunity=on', '-Dunity_size=2']),
+    ('test cases/common/127 generated assembly', []),
+]
 
 
 
@@ -456,9 +479,13 @@ def run(ctx: Ctx) -> None:
     ctx.ev.extra['catalogue_cases'] = len(cs)
     feat = [('feat', c) for c in featproj.by_cost(cs)]
     pmap(ctx, _shard, [('gen', (s, per)) for s in shard_seeds(ctx, 16)] + feat)
+    if ctx.quick:
+        fixed = [(os.path.join(REPO, p), v) for p, v in CORPUS_FIXED]
+        pmap(ctx, _corpus_shard, [[x] for x in fixed])
+        ctx.ev.extra['corpus_projects'] = len(fixed)
     if not ctx.quick:
-        projs = corpus_projects()
-        shards = [projs[i::32] for i in range(32)]
+        projs = [(p, v) for p in corpus_projects() for v in CORPUS_VARIANTS]
+        shards = [projs[i::48] for i in range(48)]
         pmap(ctx, _corpus_shard, shards)
         ctx.ev.extra['corpus_projects'] = len(projs)
 
@@ -472,6 +499,6 @@ def replay(ctx: Ctx, case: T.Any, doc: dict) -> T.Optional[Failure]:
         return check_feature(case, os.path.join(ctx.scratch, 'replay'), None)
     if isinstance(case, dict) and 'corpus' in case:
         fails: T.List[Failure] = []
-        _corpus_shard([os.path.join(REPO, case['corpus'])], Evidence(), fails)
+        _corpus_shard([(os.path.join(REPO, case['corpus']), case.get('args', []))], Evidence(), fails)
         return fails[0] if fails else None
     return check_model(case, os.path.join(ctx.scratch, 'replay'), None)
